@@ -187,11 +187,24 @@ func nativeReplay(e *sym.Engine, spec *Spec, pkg string, tapes []string, tries i
 // and (b) natively; failures, reach marks and observations must be identical.
 func validateEncoder(rr *runResult, n int) (int, []string, []string) {
 	var tapes []*sym.Tape
+	skippedLong := 0
 	for _, tp := range rr.valTapes {
-		if !contains(rr.spec.EngineOnly, tp.Harness) {
-			tapes = append(tapes, tp)
+		if contains(rr.spec.EngineOnly, tp.Harness) {
+			continue
 		}
+		// a native run waits for the virtual time the path advanced: paths that let
+		// more than 20 s pass (e.g. a sleep of keep-alive seconds) are not sampled
+		var total int64
+		for _, a := range tp.Advances {
+			total += a
+		}
+		if total > int64(20e9) {
+			skippedLong++
+			continue
+		}
+		tapes = append(tapes, tp)
 	}
+	_ = skippedLong
 	if len(tapes) == 0 {
 		return 0, []string{"no tapes sampled"}, nil
 	}
